@@ -55,3 +55,17 @@ def print_assumptions(module, names):
             ax = re.findall(r"^(\S+)\s*:", ch, re.M)
             res[n] = [a for a in ax if a not in ("Axioms",)]
     return res
+
+
+def coqchk(module):
+    """independent re-check of the compiled theory behind a property file; returns (ok, summary dict)"""
+    p = subprocess.run(["timeout", "1500", "coqchk", "-silent", "-o", "-Q", build.COQ, "CGT", "CGT.%s" % module],
+                       stdout=subprocess.PIPE, stderr=subprocess.STDOUT, text=True)
+    out = p.stdout
+    summ = {}
+    for key, label in (("axioms", "Axioms"), ("type_in_type", "Constants/Inductives relying on type-in-type"),
+                       ("unsafe_fix", "Constants/Inductives relying on unsafe (co)fixpoints"), ("positivity_assumed", "Inductives whose positivity is assumed")):
+        m = re.search(r"\* " + re.escape(label) + r":(.*?)(?=\n\* |\Z)", out, re.S)
+        summ[key] = " ".join(m.group(1).split()) if m else "?"
+    ok = p.returncode == 0 and all(v == "<none>" for v in summ.values())
+    return ok, summ, out[-800:]
